@@ -10,8 +10,43 @@ use std::cell::{Cell, RefCell};
 use std::io;
 use sux::utils::RewindableIoLender;
 
-/// More attempts than this (= rewinds of the key lender) violate "terminates".
-pub const MAX_REWINDS: u32 = 64;
+/// The design's nominal bound: successful builds that needed more attempts
+/// (= rewinds of the key lender) than this are counted as "slow convergence"
+/// in the evidence; they are not violations.
+pub const SOFT_ATTEMPTS: u32 = 64;
+pub const SMALL_N: usize = 5_000;
+/// The bound that decides "no progress" (violation of "terminates"). The
+/// pinned tree needs hundreds of attempts (success probability 0.1-1 % per
+/// attempt) for many key counts between 100 and ~1200 (see
+/// notes/C07-defects.md) and still terminates with probability 1; a build that
+/// is still failing after 20000 attempts on such a small key set, or after 200
+/// on a larger one (where an attempt fails with probability < 0.2), is not
+/// going to succeed. The lender refuses the next rewind, so the build stops.
+pub fn attempt_limit(n: usize) -> u32 {
+    if n > SMALL_N {
+        200
+    } else {
+        20_000
+    }
+}
+
+/// Set once a no-progress violation has been recorded in this process: later
+/// builds are then abandoned (without a verdict) after `SOFT_ATTEMPTS`
+/// attempts, so that a tree whose retry loop never ends does not cost 20000
+/// attempts in every single case.
+pub static NOPROG_SEEN: std::sync::atomic::AtomicBool = std::sync::atomic::AtomicBool::new(false);
+
+pub fn degraded() -> bool {
+    NOPROG_SEEN.load(std::sync::atomic::Ordering::Relaxed)
+}
+
+pub fn effective_limit(n: usize) -> u32 {
+    if degraded() {
+        SOFT_ATTEMPTS
+    } else {
+        attempt_limit(n)
+    }
+}
 pub const TAG_FAULT: &str = "SUXMON-INJECTED-FAULT";
 pub const TAG_NOPROG: &str = "SUXMON-NO-PROGRESS";
 
@@ -143,8 +178,10 @@ pub struct Stats {
     pub calls_after_fault: Cell<u64>,
     /// the lender refused the 65th rewind
     pub noprog: Cell<bool>,
-    /// one entry per pass / rewind: the evidence trace
+    /// one entry per pass / rewind: the evidence trace (first passes, then the last one)
     pub trace: RefCell<Vec<String>>,
+    pub last: RefCell<String>,
+    pub omitted: Cell<u32>,
     /// items served per completed or abandoned pass
     pub pass_items: RefCell<Vec<u64>>,
 }
@@ -157,20 +194,34 @@ impl Stats {
     }
     fn flush_pass(&self, how: &str) {
         let mut t = self.trace.borrow_mut();
-        if t.len() < 200 {
-            t.push(format!(
-                "pass{}:{}next/{}items/{}{}",
-                self.pass.get(),
-                self.calls.get(),
-                self.items.get(),
-                if self.ended.get() { "None" } else { "open" },
-                how
-            ));
+        let e = format!(
+            "pass{}:{}next/{}items/{}{}",
+            self.pass.get(),
+            self.calls.get(),
+            self.items.get(),
+            if self.ended.get() { "None" } else { "open" },
+            how
+        );
+        if t.len() < 12 {
+            t.push(e);
+        } else {
+            if !self.last.borrow().is_empty() {
+                self.omitted.set(self.omitted.get() + 1);
+            }
+            *self.last.borrow_mut() = e;
         }
         self.pass_items.borrow_mut().push(self.items.get());
     }
     pub fn trace_string(&self) -> String {
-        self.trace.borrow().join(" ")
+        let mut s = self.trace.borrow().join(" ");
+        if self.omitted.get() > 0 {
+            s.push_str(&format!(" ...({} more passes)...", self.omitted.get()));
+        }
+        if !self.last.borrow().is_empty() {
+            s.push(' ');
+            s.push_str(&self.last.borrow());
+        }
+        s
     }
     /// number of passes started (attempts of the builder as seen by this lender)
     pub fn passes(&self) -> u32 {
@@ -194,10 +245,11 @@ pub struct ProbeLender<'s, S: Src> {
 impl<'s, S: Src> ProbeLender<'s, S> {
     pub fn new(src: S, stats: &'s Stats) -> Self {
         let n = src.len();
-        ProbeLender { src, order: None, n, pos: 0, stats, fault: Fault::None, tag: 0, max_rewinds: MAX_REWINDS, flushed: false }
+        ProbeLender { src, order: None, n, pos: 0, stats, fault: Fault::None, tag: 0, max_rewinds: effective_limit(n), flushed: false }
     }
     pub fn with_order(mut self, order: &'s [u32]) -> Self {
         self.n = order.len();
+        self.max_rewinds = effective_limit(self.n);
         self.order = Some(order);
         self
     }
@@ -570,4 +622,25 @@ pub fn n_class(n: usize) -> String {
         _ => ">8e5",
     };
     format!("n in {}", r)
+}
+
+// ---------------------------------------------------------------------------
+// CPU time of this process (all threads), for workload tuning (`SUXMON_TIMES=1`)
+
+#[repr(C)]
+struct Timespec {
+    tv_sec: i64,
+    tv_nsec: i64,
+}
+extern "C" {
+    fn clock_gettime(clk: i32, ts: *mut Timespec) -> i32;
+}
+pub fn cpu_secs() -> f64 {
+    let mut ts = Timespec { tv_sec: 0, tv_nsec: 0 };
+    // CLOCK_PROCESS_CPUTIME_ID = 2 on Linux
+    unsafe { clock_gettime(2, &mut ts) };
+    ts.tv_sec as f64 + ts.tv_nsec as f64 * 1e-9
+}
+pub fn timing_enabled() -> bool {
+    std::env::var("SUXMON_TIMES").is_ok()
 }
